@@ -1508,6 +1508,9 @@ func TestC23(t *testing.T) {
 		})
 	})
 
+	t.Run("surplus", func(t *testing.T) {
+		ev.Check(t, 1500, 8000, func(rt *rapid.T) { c23Surplus(rt, rec) })
+	})
 	t.Run("narrow", func(t *testing.T) {
 		ev.Check(t, 1500, 6000, func(rt *rapid.T) {
 			g := &c23Gen{rt: rt}
@@ -1711,4 +1714,303 @@ func FuzzC23Decode(f *testing.F) {
 			t.Fatalf("C23 violated: %s", msg)
 		}
 	})
+}
+
+
+// ---------------------------------------------------------------------------------------------
+// surplus: lists that hold more elements than the target reads (how goloop stays compatible with
+// newer encodings of a structure), and values written through the explicit list API
+// (EncodeListOf/DecodeListOf, EncodeMulti/DecodeMulti, custom RLPEncodeSelf/RLPDecodeSelf).
+// Oracle: the fields the narrow target does read are the written ones, at every nesting level, and
+// whatever follows the value in the stream (a sentinel string and number) is decoded unharmed:
+// a skipped element must be skipped with exactly its size.
+
+type c23Wide struct {
+	N    int64
+	S    string
+	P    *string
+	Big  *big.Int
+	Bs   []byte
+	Kids []c23Inner
+	M    map[string]int64
+}
+
+type c23Slim struct {
+	N int64
+	S string
+}
+
+type c23WideBox struct {
+	Head  int32
+	Items []c23Wide
+	One   c23Wide
+	PW    *c23Wide
+	Tail  string
+}
+
+type c23Flat struct {
+	A int64
+	B string
+	C []byte
+	D []uint16
+	E c23Slim
+	F string
+	G uint64
+}
+
+type c23SlimBox struct {
+	Head  int32
+	Items []c23Slim
+	One   c23Slim
+	PW    *c23Slim
+	Tail  string
+}
+
+// c23Self writes itself with the explicit list API; c23SelfOld is an older reader of the same format
+// that knows only the first two members.
+type c23Self struct {
+	A int64
+	B []byte
+	C *c23Inner
+	D string
+	E []uint16
+}
+
+func (x *c23Self) RLPEncodeSelf(e codec.Encoder) error {
+	e2, err := e.EncodeList()
+	if err != nil {
+		return err
+	}
+	if err := e2.EncodeMulti(x.A, x.B, x.C); err != nil {
+		return err
+	}
+	return e2.EncodeListOf(x.D, x.E)
+}
+
+func (x *c23Self) RLPDecodeSelf(d codec.Decoder) error {
+	d2, err := d.DecodeList()
+	if err != nil {
+		return err
+	}
+	if _, err := d2.DecodeMulti(&x.A, &x.B, &x.C); err != nil {
+		return err
+	}
+	return d2.DecodeListOf(&x.D, &x.E)
+}
+
+type c23SelfOld struct {
+	A int64
+	B []byte
+}
+
+func (x *c23SelfOld) RLPEncodeSelf(e codec.Encoder) error { return e.EncodeListOf(x.A, x.B) }
+func (x *c23SelfOld) RLPDecodeSelf(d codec.Decoder) error { return d.DecodeListOf(&x.A, &x.B) }
+
+func c23Surplus(rt *rapid.T, rec *ev.Rec) {
+	g := &c23Gen{rt: rt, budget: 30}
+	wide := func(label string) c23Wide {
+		w := c23Wide{N: g.i64(label + ".n"), S: g.str(label + ".s"), P: g.pstr(label + ".p"), Big: g.big(label + ".big"), Bs: g.bytesN(label + ".bs")}
+		for i, n := 0, g.count(label+".kids", 3); i < n; i++ {
+			w.Kids = append(w.Kids, g.inner())
+		}
+		if n := g.count(label+".m", 3); n > 0 {
+			w.M = map[string]int64{}
+			for i := 0; i < n; i++ {
+				w.M[g.key(label+".mk")] = g.i64(label + ".mv")
+			}
+		}
+		return w
+	}
+	kind := rapid.SampledFrom([]string{"box", "box", "self", "selfInSlice", "oldReader", "skip"}).Draw(rt, "kind")
+	sentS, sentN := g.str("sentinelS"), g.i64("sentinelN")
+	var stream, first []byte
+	add := func(v interface{}) {
+		b, msg := c23Enc(v)
+		if msg != "" {
+			rt.Fatalf("C23 violated: %s", msg)
+		}
+		if first == nil {
+			first = b
+		}
+		stream = append(stream, b...)
+	}
+	fail := func(format string, a ...interface{}) {
+		rt.Fatalf("C23 violated (surplus/%s): %s; stream %x", kind, fmt.Sprintf(format, a...), c23Short(stream))
+	}
+	tail := func(rest []byte) {
+		var s string
+		var n int64
+		rest, err, pn := c23Dec(rest, &s)
+		if pn != "" || err != nil {
+			fail("the value after the skipped members does not decode: %v %s", err, pn)
+		}
+		rest, err, pn = c23Dec(rest, &n)
+		if pn != "" || err != nil || len(rest) != 0 {
+			fail("the number after the skipped members does not decode: %v %s (%d bytes left)", err, pn, len(rest))
+		}
+		if s != sentS || n != sentN {
+			fail("values following the structure were damaged: got (%q,%d), written (%q,%d)", s, n, sentS, sentN)
+		}
+	}
+	switch kind {
+	case "skip":
+		// Decoder.Skip(k) inside a list, then the next member (how a single header field is read)
+		fl := c23Flat{A: g.i64("a"), B: g.str("b"), C: g.bytesN("c"), E: c23Slim{N: g.i64("e.n"), S: g.str("e.s")}, F: g.str("f"), G: g.u64("g")}
+		for i, n := 0, g.count("d", 4); i < n; i++ {
+			fl.D = append(fl.D, uint16(g.ubits("dv", 16)))
+		}
+		add(&fl)
+		k := rapid.IntRange(0, 6).Draw(rt, "skipCount")
+		func() {
+			defer func() {
+				if r := recover(); r != nil {
+					fail("Skip(%d) / Decode panicked: %v", k, r)
+				}
+			}()
+			d := codec.BC.NewDecoder(bytes.NewReader(stream))
+			d2, err := d.DecodeList()
+			if err != nil {
+				fail("DecodeList: %v", err)
+			}
+			if err := d2.Skip(k); err != nil {
+				fail("Skip(%d) of 7 members: %v", k, err)
+			}
+			var got, want interface{}
+			switch k {
+			case 0:
+				var v int64
+				err, got, want = d2.Decode(&v), &v, &fl.A
+			case 1:
+				var v string
+				err, got, want = d2.Decode(&v), &v, &fl.B
+			case 2:
+				var v []byte
+				err, got, want = d2.Decode(&v), &v, &fl.C
+			case 3:
+				var v []uint16
+				err, got, want = d2.Decode(&v), &v, &fl.D
+			case 4:
+				var v c23Slim
+				err, got, want = d2.Decode(&v), &v, &fl.E
+			case 5:
+				var v string
+				err, got, want = d2.Decode(&v), &v, &fl.F
+			default:
+				var v uint64
+				err, got, want = d2.Decode(&v), &v, &fl.G
+			}
+			if err != nil {
+				fail("member %d after Skip(%d) does not decode: %v", k, k, err)
+			}
+			if m := c23Eq(reflect.ValueOf(got).Elem(), reflect.ValueOf(want).Elem(), fmt.Sprintf("member%d", k)); m != "" {
+				fail("member %d after Skip(%d) differs: %s", k, k, m)
+			}
+		}()
+	case "box":
+		wb := c23WideBox{Head: int32(g.ibits("head", 32)), One: wide("one"), Tail: g.str("tail")}
+		for i, n := 0, g.count("items", 4); i < n; i++ {
+			wb.Items = append(wb.Items, wide("item"))
+		}
+		if rapid.Bool().Draw(rt, "pw") {
+			w := wide("pw")
+			wb.PW = &w
+		}
+		add(&wb)
+		add(sentS)
+		add(sentN)
+		var sb c23SlimBox
+		rest, err, pn := c23Dec(stream, &sb)
+		if pn != "" || err != nil {
+			fail("a structure with more members than the target reads is not decoded: %v %s", err, pn)
+		}
+		if sb.Head != wb.Head || sb.Tail != wb.Tail || len(sb.Items) != len(wb.Items) || sb.One.N != wb.One.N || sb.One.S != wb.One.S || (sb.PW == nil) != (wb.PW == nil) {
+			fail("members read by the narrow target differ: got %+v, written head=%d tail=%q items=%d one=(%d,%q)", sb, wb.Head, wb.Tail, len(wb.Items), wb.One.N, wb.One.S)
+		}
+		if sb.PW != nil && (sb.PW.N != wb.PW.N || sb.PW.S != wb.PW.S) {
+			fail("pointer member read as (%d,%q), written (%d,%q)", sb.PW.N, sb.PW.S, wb.PW.N, wb.PW.S)
+		}
+		for i := range sb.Items {
+			if sb.Items[i].N != wb.Items[i].N || sb.Items[i].S != wb.Items[i].S {
+				fail("item %d read as (%d,%q), written (%d,%q)", i, sb.Items[i].N, sb.Items[i].S, wb.Items[i].N, wb.Items[i].S)
+			}
+		}
+		tail(rest)
+	case "self", "selfInSlice", "oldReader":
+		mk := func(label string) *c23Self {
+			x := &c23Self{A: g.i64(label + ".a"), B: g.bytesN(label + ".b"), C: g.pinner(label + ".c"), D: g.str(label + ".d")}
+			for i, n := 0, g.count(label+".e", 4); i < n; i++ {
+				x.E = append(x.E, uint16(g.ubits(label+".ev", 16)))
+			}
+			return x
+		}
+		eq := func(a, b *c23Self) string {
+			if a.A != b.A || !bytes.Equal(a.B, b.B) || a.D != b.D || len(a.E) != len(b.E) || (a.C == nil) != (b.C == nil) {
+				return fmt.Sprintf("got %+v, written %+v", a, b)
+			}
+			for i := range a.E {
+				if a.E[i] != b.E[i] {
+					return fmt.Sprintf("E[%d]=%d, written %d", i, a.E[i], b.E[i])
+				}
+			}
+			if a.C != nil {
+				return c23Eq(reflect.ValueOf(*a.C), reflect.ValueOf(*b.C), "C")
+			}
+			return ""
+		}
+		switch kind {
+		case "self":
+			x := mk("x")
+			add(x)
+			add(sentS)
+			add(sentN)
+			var y c23Self
+			rest, err, pn := c23Dec(stream, &y)
+			if pn != "" || err != nil {
+				fail("a value written through the list API is not decoded: %v %s", err, pn)
+			}
+			if m := eq(&y, x); m != "" {
+				fail("list-API value changed: %s", m)
+			}
+			tail(rest)
+		case "selfInSlice":
+			var xs []*c23Self
+			for i, n := 0, 1+g.count("n", 3); i < n; i++ {
+				xs = append(xs, mk("x"))
+			}
+			add(xs)
+			add(sentS)
+			add(sentN)
+			var ys []*c23Self
+			rest, err, pn := c23Dec(stream, &ys)
+			if pn != "" || err != nil || len(ys) != len(xs) {
+				fail("a slice of list-API values is not decoded: %v %s (%d of %d)", err, pn, len(ys), len(xs))
+			}
+			for i := range xs {
+				if m := eq(ys[i], xs[i]); m != "" {
+					fail("list-API value %d changed: %s", i, m)
+				}
+			}
+			tail(rest)
+		default:
+			var xs []*c23Self
+			for i, n := 0, 1+g.count("n", 3); i < n; i++ {
+				xs = append(xs, mk("x"))
+			}
+			add(xs)
+			add(sentS)
+			add(sentN)
+			var ys []*c23SelfOld
+			rest, err, pn := c23Dec(stream, &ys)
+			if pn != "" || err != nil || len(ys) != len(xs) {
+				fail("an older reader (first two members only) cannot decode the newer encoding: %v %s (%d of %d)", err, pn, len(ys), len(xs))
+			}
+			for i := range xs {
+				if ys[i].A != xs[i].A || !bytes.Equal(ys[i].B, xs[i].B) {
+					fail("older reader got (%d,%x) for element %d, written (%d,%x)", ys[i].A, ys[i].B, i, xs[i].A, xs[i].B)
+				}
+			}
+			tail(rest)
+		}
+	}
+	rec.Case(fmt.Sprintf("surplus %s %s", kind, c23Sum(stream)), true, "surplus", "surplus:"+kind)
 }
